@@ -104,7 +104,36 @@ def parse(repo):
     for t, d, n in ((isop, idef, "isNAryOperatorSyntax"), (isasg, adef, "isKindOfAssignmentExpression"), (isbin, bdef, "isKindOfBinaryExpression")):
         if d != "false" or any(v != "true" for v in t.values()):
             raise TranslateError("%s is not a 'true for these, false otherwise' table" % n)
-    return dict(levels=levels, prec=prec, ra=ra, kinds=kinds, kdef=kdef.split("::")[1], isop=sorted(isop), isasg=sorted(isasg), isbin=sorted(isbin))
+    # ---- prefix operators: parseExpressionWithPrecedenceUnary
+    ub = body_of(pe, r"bool Parser::parseExpressionWithPrecedenceUnary\(ExpressionSyntax\*& expr\)\s*\{")
+    prefix = {}
+    for m in re.finditer(r"((?:case SyntaxKind::\w+:\s*)+)(?:if \([^;]*;\s*)?return parsePrefixUnaryExpression_AtFirst\(\s*expr,\s*SyntaxKind::(\w+),\s*&Parser::parseExpressionWithPrecedence(Unary|Cast)\);", ub):
+        for lab in re.findall(r"case SyntaxKind::(\w+):", m.group(1)):
+            if lab in prefix:
+                raise TranslateError("prefix operator listed twice: " + lab)
+            prefix[lab] = (m.group(2), m.group(3) == "Unary")
+    if ub.count("parsePrefixUnaryExpression_AtFirst") != len(set(v[0] for v in prefix.values())):
+        raise TranslateError("parseExpressionWithPrecedenceUnary: a prefix-operator case is outside the subset")
+    # ---- postfix loop: parsePostfixExpression_AtFollowOfPrimary
+    pb = body_of(pe, r"bool Parser::parsePostfixExpression_AtFollowOfPrimary\(ExpressionSyntax\*& expr\)\s*\{")
+    postfix = {}
+    labels = []
+    for m in re.finditer(r"case SyntaxKind::(\w+):|parsePostfixExpression_AtFollowOfPrimary<(\w+)>|break;", pb):
+        if m.group(1):
+            labels.append(m.group(1))
+        elif m.group(2):
+            for lab in labels:
+                postfix[lab] = m.group(2)
+            labels = []
+    if pb.count("parsePostfixExpression_AtFollowOfPrimary<") != len(set(postfix.values())) or labels:
+        raise TranslateError("parsePostfixExpression_AtFollowOfPrimary outside the subset")
+    # ---- `( type-name )`: the tokens after `(` that make parseExpressionWithPrecedenceCast read a cast / compound literal
+    cb = body_of(pe, r"bool Parser::parseExpressionWithPrecedenceCast\(ExpressionSyntax\*& expr\)\s*\{")
+    m = re.search(r"switch \(peek\(2\)\.kind\(\)\) \{((?:\s*case SyntaxKind::\w+:)+)\s*return parseCompoundLiteralOrCastExpression_AtFirst\(expr\);", cb)
+    if not m:
+        raise TranslateError("parseExpressionWithPrecedenceCast outside the subset")
+    typestart = re.findall(r"case SyntaxKind::(\w+):", m.group(1))
+    return dict(prefix=prefix, postfix=postfix, typestart=typestart, levels=levels, prec=prec, ra=ra, kinds=kinds, kdef=kdef.split("::")[1], isop=sorted(isop), isasg=sorted(isasg), isbin=sorted(isbin))
 
 
 def main(repo, outpath):
@@ -127,6 +156,21 @@ def main(repo, outpath):
         L.append("def %s : Kind → Bool" % name)
         L.append("  | %s => true" % " | ".join("." + k for k in lst))
         L.append("  | _ => false\n")
+    L.append("/-- `parseExpressionWithPrecedenceUnary`: prefix operators; `some true` = the operand is parsed as a unary-expression, `some false` = as a cast-expression -/")
+    L.append("def prefixOperand : Kind → Option Bool")
+    for k, (node, un) in t["prefix"].items():
+        L.append("  | .%s => some %s" % (k, "true" if un else "false"))
+    L.append("  | _ => none\n")
+    L.append("def prefixNode : Kind → Kind")
+    for k, (node, un) in t["prefix"].items():
+        L.append("  | .%s => .%s" % (k, node))
+    L.append("  | _ => .Error\n")
+    for name, cls in (("postfixIncDec", "PostfixUnaryExpressionSyntax"), ("memberAccess", "MemberAccessExpressionSyntax"),
+                      ("subscriptOpen", "ArraySubscriptExpressionSyntax"), ("callOpen", "CallExpressionSyntax")):
+        L.append("/-- `parsePostfixExpression_AtFollowOfPrimary`: tokens continuing with a `%s` -/" % cls)
+        L.append("def %s : List Kind := [%s]\n" % (name, ", ".join("." + k for k, v in t["postfix"].items() if v == cls)))
+    L.append("/-- `parseExpressionWithPrecedenceCast`: after `(`, these tokens start a type name -/")
+    L.append("def castTypeStart : List Kind := [%s]\n" % ", ".join("." + k for k in t["typestart"]))
     L.append("def levelNames : List (String × Nat) := [%s]" % ", ".join('("%s", %d)' % kv for kv in t["levels"].items()))
     L.append("\nend PsycheModel.Generated.Facts\n")
     txt = "\n".join(L)
